@@ -1244,6 +1244,166 @@ where
     }
 }
 
+// ---------------------------------------------------------------------------------------------
+// The `minicbor::bytes` codec functions (what `#[cbor(with = "minicbor::bytes")]` expands to) over every
+// type that implements EncodeBytes / DecodeBytes / CborLenBytes: plain byte containers encoded as CBOR
+// byte strings instead of arrays of integers.
+
+pub struct WB<T>(pub T);
+
+impl<T: minicbor::bytes::EncodeBytes<()>> Encode<()> for WB<T> {
+    fn encode<W: encode::Write>(&self, e: &mut encode::Encoder<W>, ctx: &mut ()) -> Result<(), encode::Error<W::Error>> {
+        minicbor::bytes::encode(&self.0, e, ctx)
+    }
+    fn is_nil(&self) -> bool {
+        minicbor::bytes::is_nil::<(), T>(&self.0)
+    }
+}
+impl<'b, T: minicbor::bytes::DecodeBytes<'b, ()>> Decode<'b, ()> for WB<T> {
+    fn decode(d: &mut Decoder<'b>, ctx: &mut ()) -> Result<Self, decode::Error> {
+        minicbor::bytes::decode(d, ctx).map(WB)
+    }
+    fn nil() -> Option<Self> {
+        minicbor::bytes::nil::<(), T>().map(WB)
+    }
+}
+impl<T> CborLen<()> for WB<T>
+where
+    for<'a> &'a T: minicbor::bytes::CborLenBytes<()>,
+{
+    fn cbor_len(&self, ctx: &mut ()) -> usize {
+        minicbor::bytes::cbor_len(&self.0, ctx)
+    }
+}
+
+/// The byte content of a bytes-codec type (None = the nil value).
+pub trait BytesLike: Sized {
+    fn content(&self) -> Option<&[u8]>;
+    fn bshape() -> Shape;
+    fn bsmall() -> Vec<Self>;
+}
+impl BytesLike for Vec<u8> {
+    fn content(&self) -> Option<&[u8]> {
+        Some(self)
+    }
+    fn bshape() -> Shape {
+        Shape::Bytes
+    }
+    fn bsmall() -> Vec<Self> {
+        small_bytes()
+    }
+}
+impl BytesLike for ByteVec {
+    fn content(&self) -> Option<&[u8]> {
+        Some(self)
+    }
+    fn bshape() -> Shape {
+        Shape::Bytes
+    }
+    fn bsmall() -> Vec<Self> {
+        small_bytes().into_iter().map(ByteVec::from).collect()
+    }
+}
+impl BytesLike for std::borrow::Cow<'static, [u8]> {
+    fn content(&self) -> Option<&[u8]> {
+        Some(self)
+    }
+    fn bshape() -> Shape {
+        Shape::Bytes
+    }
+    fn bsmall() -> Vec<Self> {
+        small_bytes().into_iter().enumerate().map(|(i, v)| if i % 2 == 0 { std::borrow::Cow::Owned(v) } else { std::borrow::Cow::Borrowed(&*Vec::leak(v)) }).collect()
+    }
+}
+impl<const N: usize> BytesLike for [u8; N] {
+    fn content(&self) -> Option<&[u8]> {
+        Some(self)
+    }
+    fn bshape() -> Shape {
+        Shape::ByteArray(N)
+    }
+    fn bsmall() -> Vec<Self> {
+        <ByteArray<N> as Ty>::small().into_iter().map(|a| a.into()).collect()
+    }
+}
+impl<const N: usize> BytesLike for ByteArray<N> {
+    fn content(&self) -> Option<&[u8]> {
+        Some(&self[..])
+    }
+    fn bshape() -> Shape {
+        Shape::ByteArray(N)
+    }
+    fn bsmall() -> Vec<Self> {
+        <ByteArray<N> as Ty>::small()
+    }
+}
+impl<T: BytesLike> BytesLike for Option<T> {
+    fn content(&self) -> Option<&[u8]> {
+        self.as_ref().and_then(|x| x.content())
+    }
+    fn bshape() -> Shape {
+        Shape::Option(Box::new(T::bshape()))
+    }
+    fn bsmall() -> Vec<Self> {
+        let mut v = vec![None];
+        v.extend(T::bsmall().into_iter().map(Some));
+        v
+    }
+}
+impl<T: BytesLike> ToModel for WB<T> {
+    fn to_model(&self) -> Item {
+        match self.0.content() {
+            Some(b) => Item::bytes(b),
+            None => NULL,
+        }
+    }
+}
+impl<T: BytesLike> Ty for WB<T> {
+    fn shape() -> Shape {
+        T::bshape()
+    }
+    fn small() -> Vec<Self> {
+        T::bsmall().into_iter().map(WB).collect()
+    }
+}
+
+pub fn decode_wb_slice_ref(bytes: &[u8], pos: usize) -> DecOut {
+    let mut d = Decoder::new(bytes);
+    d.set_position(pos);
+    let r = d.decode::<WB<&[u8]>>();
+    let inside_ = r.as_ref().ok().map(|s| inside(bytes, s.0.as_ptr(), s.0.len()));
+    DecOut { res: r.map(|v| Item::bytes(v.0)).map_err(|e| classify(&e)), pos: d.position(), borrowed_inside: inside_ }
+}
+pub fn decode_wb_opt_slice_ref(bytes: &[u8], pos: usize) -> DecOut {
+    let mut d = Decoder::new(bytes);
+    d.set_position(pos);
+    let r = d.decode::<WB<Option<&[u8]>>>();
+    let inside_ = r.as_ref().ok().map(|s| s.0.map(|s| inside(bytes, s.as_ptr(), s.len())).unwrap_or(true));
+    DecOut { res: r.map(|v| v.0.map(Item::bytes).unwrap_or(NULL)).map_err(|e| classify(&e)), pos: d.position(), borrowed_inside: inside_ }
+}
+pub fn decode_wb_byteslice_ref(bytes: &[u8], pos: usize) -> DecOut {
+    let mut d = Decoder::new(bytes);
+    d.set_position(pos);
+    let r = d.decode::<WB<&ByteSlice>>();
+    let inside_ = r.as_ref().ok().map(|s| inside(bytes, s.0.as_ptr(), s.0.len()));
+    DecOut { res: r.map(|v| Item::bytes(v.0)).map_err(|e| classify(&e)), pos: d.position(), borrowed_inside: inside_ }
+}
+impl ToModel for WB<&'static [u8]> {
+    fn to_model(&self) -> Item {
+        Item::bytes(self.0)
+    }
+}
+impl ToModel for WB<Option<&'static [u8]>> {
+    fn to_model(&self) -> Item {
+        self.0.map(Item::bytes).unwrap_or(NULL)
+    }
+}
+impl ToModel for WB<&'static ByteSlice> {
+    fn to_model(&self) -> Item {
+        Item::bytes(self.0)
+    }
+}
+
 pub struct TypeEntry {
     pub name: &'static str,
     pub shape: Shape,
@@ -1332,6 +1492,16 @@ pub fn type_table() -> Vec<TypeEntry> {
     entry!(v, "ByteArray<4>", ByteArray<4>);
     entry!(v, "ByteArray<16>", ByteArray<16>);
     entry!(v, "ByteArray<24>", ByteArray<24>);
+    entry!(v, "bytes-codec Vec<u8>", WB<Vec<u8>>);
+    entry!(v, "bytes-codec ByteVec", WB<ByteVec>);
+    entry!(v, "bytes-codec Cow<[u8]>", WB<std::borrow::Cow<'static, [u8]>>);
+    entry!(v, "bytes-codec [u8;0]", WB<[u8; 0]>);
+    entry!(v, "bytes-codec [u8;4]", WB<[u8; 4]>);
+    entry!(v, "bytes-codec [u8;24]", WB<[u8; 24]>);
+    entry!(v, "bytes-codec ByteArray<4>", WB<ByteArray<4>>);
+    entry!(v, "bytes-codec Option<Vec<u8>>", WB<Option<Vec<u8>>>);
+    entry!(v, "bytes-codec Option<[u8;4]>", WB<Option<[u8; 4]>>);
+    entry!(v, "bytes-codec Option<Cow<[u8]>>", WB<Option<std::borrow::Cow<'static, [u8]>>>);
     entry!(v, "Option<u8>", Option<u8>);
     v.last_mut().unwrap().values = vals_arr::<Option<u8>>;
     entry!(v, "Option<String>", Option<String>);
@@ -1506,6 +1676,51 @@ pub fn type_table() -> Vec<TypeEntry> {
                 .collect()
         },
         borrowed: true,
+    });
+    macro_rules! wb_borrowed {
+        ($name:expr, $shape:expr, $dec:ident, $vals:expr) => {
+            v.push(TypeEntry {
+                name: $name,
+                shape: $shape,
+                ordered: true,
+                size_of: 16,
+                elem_size: 8,
+                decode: $dec,
+                raw: |b, p| {
+                    let o = $dec(b, p);
+                    Raw { ok: o.res.is_ok(), pos: o.pos, anomaly: if o.borrowed_inside == Some(false) { Some("borrowed result outside the input") } else { None } }
+                },
+                values: $vals,
+                borrowed: true,
+            });
+        };
+    }
+    wb_borrowed!("bytes-codec &[u8]", Shape::Bytes, decode_wb_slice_ref, || {
+        small_bytes()
+            .into_iter()
+            .map(|s| {
+                let l: &'static [u8] = leak(s.into_boxed_slice());
+                Box::new(VRef::<WB<&'static [u8]>> { val: leak(Box::new(WB(l))), dec: decode_wb_slice_ref }) as Box<dyn ErasedVal>
+            })
+            .collect()
+    });
+    wb_borrowed!("bytes-codec Option<&[u8]>", Shape::Option(Box::new(Shape::Bytes)), decode_wb_opt_slice_ref, || {
+        let mut out: Vec<Box<dyn ErasedVal>> = vec![Box::new(VRef::<WB<Option<&'static [u8]>>> { val: leak(Box::new(WB(None))), dec: decode_wb_opt_slice_ref })];
+        for s in small_bytes() {
+            let l: &'static [u8] = leak(s.into_boxed_slice());
+            out.push(Box::new(VRef::<WB<Option<&'static [u8]>>> { val: leak(Box::new(WB(Some(l)))), dec: decode_wb_opt_slice_ref }));
+        }
+        out
+    });
+    wb_borrowed!("bytes-codec &ByteSlice", Shape::Bytes, decode_wb_byteslice_ref, || {
+        small_bytes()
+            .into_iter()
+            .map(|s| {
+                let l: &'static [u8] = leak(s.into_boxed_slice());
+                let b: &'static ByteSlice = l.into();
+                Box::new(VRef::<WB<&'static ByteSlice>> { val: leak(Box::new(WB(b))), dec: decode_wb_byteslice_ref }) as Box<dyn ErasedVal>
+            })
+            .collect()
     });
     v
 }
